@@ -222,6 +222,7 @@ def body_E1(ctx):
         ctx.nontrivial((json.dumps(sh, sort_keys=True), tuple(ctx.trace)))
         ctx.reached("interleaved")
     ctx.sample({"programs": kinds, "via_preserve_context": via, "schedule": sched.render(14), "switches": sched.switches})
+    return received, sched
 
 
 def _prog_canon(kind, who):
